@@ -41,8 +41,12 @@ func genC10(r *h.Rng, tier string, idx int) *h.Plan {
 		if r.P(1, 5) {
 			key = "ev2" // the `when` is replaced: the old pattern must stop firing
 		}
+		var val interface{} = id
+		if r.P(1, 5) {
+			val = "?any" // the same property tested with a variable: every event with that key
+		}
 		rule := map[string]interface{}{
-			"when":   map[string]interface{}{"pattern": map[string]interface{}{key: id}},
+			"when":   map[string]interface{}{"pattern": map[string]interface{}{key: val}},
 			"action": map[string]interface{}{"code": fmt.Sprintf("'%s.m%d'", id, marker)},
 		}
 		if r.P(1, 7) {
